@@ -96,6 +96,11 @@ def bad(k):
     return {"x": "bad", "k": k}
 
 
+def attrslen():
+    """len(attrs): the number of static attributes of the innermost element"""
+    return {"x": "attrslen"}
+
+
 def attrsx(n):
     """attrs['n']: static attribute of the innermost element"""
     return {"x": "attrs", "n": n}
